@@ -49,7 +49,7 @@ func (g *G) def(k string) *Def {
 	}
 	switch {
 	case isIntTy(k):
-		return &[]Def{{V: "5"}, {V: "1"}, {V: "+13"}, {V: "42"}, {Raw: true, V: "1 + 1"}, {Raw: true, V: "abs(-3)"}, {Raw: true, V: "random()"}}[g.r.Intn(7)]
+		return &[]Def{{V: "5"}, {V: "1"}, {V: "+13"}, {V: "42"}, {Raw: true, V: "1 + 1"}, {Raw: true, V: "abs(-3)"}, {Raw: true, V: "random()"}, {Raw: true, V: "(1 + 1)"}, {Raw: true, V: "(abs(-3))"}}[g.r.Intn(9)]
 	case k == "boolean":
 		return &[]Def{{V: "true"}, {V: "false"}, {V: "1"}, {V: "0"}}[g.r.Intn(4)]
 	case isNumTy(k):
@@ -63,7 +63,7 @@ func (g *G) def(k string) *Def {
 	case k == "uuid":
 		return &Def{V: "00000000-0000-0000-0000-000000000000"}
 	}
-	return &[]Def{{V: "a"}, {V: "'b'"}, {V: "it's"}, {V: ""}, {V: "a b"}, {Raw: true, V: "lower('C')"}, {V: "\"dq\""}}[g.r.Intn(7)]
+	return &[]Def{{V: "a"}, {V: "'b'"}, {V: "it's"}, {V: ""}, {V: "a b"}, {Raw: true, V: "lower('C')"}, {V: "\"dq\""}, {V: "'(b)'"}, {Raw: true, V: "(lower('C'))"}}[g.r.Intn(9)]
 }
 
 func (g *G) col(name string, strict bool) Col {
